@@ -66,6 +66,38 @@ class Pool:
                     env[name] = _square_gram_matrix(shape, rng)
             self.values.append(env)
 
+    def add_replacement(self, src, img):
+        """Register replace(., {src: image}); img = ("term", g) | ("scale", k, g) | ("sum", g, h) |
+        ("prod", g, h) with terminals of src's shape (prod: g scalar).  Adds, for every base
+        environment e, an environment in which src has the value its image has in e."""
+        if not hasattr(self, "replmaps"):
+            self.replmaps = []
+            self.nbase = self.nenv
+        names = [n for n, _ in self.terminals]
+        shape = dict(self.terminals)[src]
+        sub = [0] * self.nenv
+        for e in range(self.nbase):
+            env = {n: dict(tab) for n, tab in self.values[e].items()}
+            base = self.values[e]
+            tab = {}
+            for c in comps(shape):
+                if img[0] == "term":
+                    tab[c] = base[img[1]][c]
+                elif img[0] == "scale":
+                    tab[c] = Cx.of(img[1]) * base[img[2]][c]
+                elif img[0] == "sum":
+                    tab[c] = base[img[1]][c] + base[img[2]][c]
+                elif img[0] == "prod":
+                    tab[c] = base[img[1]][()] * base[img[2]][c]
+            env[src] = tab
+            self.values.append(env)
+            self.nenv += 1
+            sub[e] = self.nenv
+        for m in self.replmaps:
+            m["sub"] += [0] * (self.nenv - len(m["sub"]))
+        sub += [0] * (self.nenv - len(sub))
+        self.replmaps.append({"src": names.index(src) + 1, "img": list(img), "sub": sub})
+
     # ---- TLA+ rendering -----------------------------------------------------------------------
     def tla_terminals(self):
         return "<<" + ", ".join(f'[nm |-> "{n}", sh |-> {_seq(s)}]' for n, s in self.terminals) + ">>"
